@@ -57,7 +57,7 @@ def applyOpOk (st : St) (op : List String) : St :=
   | ["restart"] => refresh { st with nodeUp := true, cs := st.cs.map fun c => { c with liveSince := none } }
   | "purchased" :: c :: rest =>
     match st.cs.find? (·.name = c) with
-    | some ct => refresh (upd st { ct with purchased := true, startedAt := st.now,
+    | some ct => refresh (upd st { ct with purchased := true, startedAt := st.now + parseInt (kvGet rest "ahead"),
                                            len := if kvGet rest "len" = "" then ct.len else parseInt (kvGet rest "len"),
                                            host := hostOf (kvGet rest "payload"),
                                            hr := if kvGet rest "hr" = "" then ct.hr else parseNat (kvGet rest "hr"), liveSince := none })
@@ -113,7 +113,7 @@ def applyOp (st : St) (op : List String) : St :=
         | none => st1
       else { st1 with cs := st1.cs.map fun x => if x.name = c then { x with stale := none } else x }
 
-def mon (st : St) (op : List String) (outs : List (List String)) : St × List String :=
+def monObs (st : St) (op : List String) (outs : List (List String)) : St × List String :=
   let before := st
   let after := applyOp st op
   let minersL := (outs.find? (·.head? = some "miners")).getD []
@@ -172,6 +172,11 @@ def mon (st : St) (op : List String) (outs : List (List String)) : St × List St
       else some s!"PROP contract {c} is fulfilled at {kvGet rest "hr"} GH/s for {kvGet rest "len"} s: not the terms of its purchase on chain"
     | _ => none
   (after, s1.take 1 ++ s2 ++ s3 ++ s4.take 1)
+
+/-- an op after which the harness prints no observation (`rpcfail`: it only arms the node's next refusal) changes the truth and
+is judged with the observation of the op that follows -/
+def mon (st : St) (op : List String) (outs : List (List String)) : St × List String :=
+  if outs.isEmpty then (applyOp st op, []) else monObs st op outs
 
 def monitor : Monitor := { σ := St, init := {}, step := mon }
 
